@@ -751,6 +751,17 @@ def path_link_direction_cases():
     got = [x.orient for x in g.line("p").links]
     if got != ["-", "+"]:
         return "mixed path a+,b+,c+ over L b - a - and L b + c +: directions %s, expected ['-', '+']" % got
+    # a hairpin whose overlap is its own complement fits a step in both forms: it counts as forward, whichever of link and path arrives first
+    for cg, pov in (("5M", "*"), ("5M", "5M"), ("*", "*"), ("2M1P2M", "2M1P2M")):
+        res = []
+        for order in (["S\ta\t*", "L\ta\t+\ta\t-\t%s" % cg, "P\tp\ta+,a-\t%s" % pov], ["S\ta\t*", "P\tp\ta+,a-\t%s" % pov, "L\ta\t+\ta\t-\t%s" % cg]):
+            g = gfapy.Gfa(order, vlevel=1)
+            lk = g.line("p").links
+            if len(lk) != 1 or len(g.dovetails) != 1 or lk[0].line is not g.dovetails[0]:
+                return "hairpin %s, path overlap %s: the path does not use the stored link" % (cg, pov)
+            res.append(lk[0].orient)
+        if res != ["+", "+"]:
+            return "hairpin a+ a- %s with P a+,a- %s: direction %s with the link first, %s with the path first (expected + in both orders)" % (cg, pov, res[0], res[1])
     return True
 
 
